@@ -944,6 +944,8 @@ def oracle(c, out):
             if op['op'] == 'init':
                 if (len(op['m']) > 64) != (r == Err('ValueError')):
                     return f'CodedConcept(meaning of {len(op["m"])} characters) gave {r}'
+            if op['op'] == 'fc' and 'a' in op and r != op['a']:
+                return f'from_code(concept {op["a"]}) returned {r}, not the concept itself'
             if op['op'] == 'fd':
                 if op['a'] is None and r != Err('TypeError'):
                     return f'from_dataset(non-dataset) gave {r}'
